@@ -23,18 +23,21 @@ RULE = ("S->C: TLC enumerates the message-shape case analysis of MsgHash_Gen (ki
         "Transactions of the blocks are also recorded inside Merkle proofs with the bodies of their messages pruned (cells of "
         "non-zero level; decoded without a hasher, with one, and a second time by the same caching decoder) and rebuilt around an "
         "in_msg body of N cells so that the transaction has exactly 255 / 256 / 257 (thorough: also 65535..65537) distinct cells. "
+        "SourceBoc is asked twice of every transaction, the bytes returned first being overwritten in between; messages holding a "
+        "library cell are also decoded through NewDecoder().WithLibraryResolver; the reused-variable decodes and the transactions of "
+        "the proof / rebuilt records go through the package-level tlb.Unmarshal on ONE boc.Cell variable whose content changes. "
         "distinct = distinct source cell tables judged.")
 
 NSHARD_GEN = 8
 
 
-def coarse(cl):
+def coarse(cl, addr=True):
     """input class of a message event, coarse enough to be a stable key: kind[:addr_var][:anycast][:body-is-library-cell][:var-reused]"""
     parts = (cl or "?").split(":")
     out = [parts[0]]
-    if "src=var" in parts or "dest=var" in parts:
+    if addr and ("src=var" in parts or "dest=var" in parts):      # the address dimensions matter where the destination is re-encoded
         out.append("addr_var")
-    if "anycast" in parts:
+    if addr and "anycast" in parts:
         out.append("anycast")
     if "body-is-library-cell" in parts:
         out.append("body-is-library-cell")
@@ -46,7 +49,7 @@ def coarse(cl):
 def key_of(e, note):
     k = e.get("k")
     if k == "Msg":
-        return "C16:%s:%s" % (note, coarse(e.get("class")))
+        return "C16:%s:%s" % (note, coarse(e.get("class"), addr=note in ("norm", "norm-cached")))
     if k == "Build":
         return "C16:build:%s" % coarse(e.get("class"))
     if k == "Norm":
@@ -313,6 +316,8 @@ def run(ck):
     if ds["Tx-proof:account_blocks"] < 5 or any(ds["Tx-rebuilt:%d-cells" % n] != 1 for n in (255, 256, 257)):
         raise Infra("records inside Merkle proofs / rebuilt transactions of 255, 256, 257 cells were not recorded: %s" %
                     {k: v for k, v in ds.items() if k.startswith("Tx-")})
+    if not any(e["k"] == "Msg" and "hnr" in e for e in [x for tp in traces for x in vlib.read_ndjson(tp)]):
+        raise Infra("no message with a library-cell body went through the decoder with a library resolver")
     if ds["Msg:var-reused"] < 50 or gs["Msg:var-reused"] < 100 or ds["Norm"] < 50:
         raise Infra("too few messages decoded into reused variables / assigned after hashing")
     if ds["Pair:equal"] < 20 or ds["Pair:differ"] < 20 or ds["Pair:free"] < 5:
@@ -348,17 +353,20 @@ def run(ck):
     c12 = copy.deepcopy(prf); c12["im"]["hc"] = flip(c12["im"]["hc"])
     nrm = next(e for e in allevs if e["k"] == "Norm")
     c13 = copy.deepcopy(nrm); c13["hn"] = flip(c13["hn"])
+    c14 = copy.deepcopy(tx); c14["bocc2"] = c14["bocc2"][:-1] + ("0" if c14["bocc2"][-1] != "0" else "1")
+    lib = next(e for e in allevs if e["k"] == "Msg" and "hnr" in e and e["class"].startswith("ext_in"))
+    c15 = copy.deepcopy(lib); c15["hnr"] = flip(c15["hnr"])
     bld = next(e for e in evs if e["k"] == "Build" and "library" not in e["class"])
     c9 = copy.deepcopy(bld); c9["dec"] = "e"
     c10 = copy.deepcopy(bld); c10["libcells"][0]["b"] = c10["libcells"][0]["b"][:-1] + ("0" if c10["libcells"][0]["b"][-1] == "1" else "1")
     p = os.path.join(ck.work, "canary.ndjson")
-    vlib.write_ndjson(p, [c1, c2, c3, c4, c5, c6, c7, c8, msg, pair_d, pair_e, tx, c9, c10, bld, c11, c12, c13, prf, nrm, {"k": "End"}])
+    vlib.write_ndjson(p, [c1, c2, c3, c4, c5, c6, c7, c8, msg, pair_d, pair_e, tx, c9, c10, bld, c11, c12, c13, prf, nrm, c14, c15, lib, {"k": "End"}])
     st = (ck.states, ck.transitions, ck.traces_ok, ck.evaluations)
     res, rej = ck.validate_events("MsgHash_Trace", "trace/MsgHash_Trace.cfg", p, name="canary")
     ck.states, ck.transitions, ck.traces_ok, ck.evaluations = st
     got = [r["line"] for r in rej]
     cnotes = {t[1]: t[2] for t in res.tuples("NOTE") if not str(t[2]).startswith("anycast-")}
-    intact = not (set(got) & {9, 10, 11, 12, 15, 19, 20})       # the unmodified events must be accepted, or the rejections mean nothing
+    intact = not (set(got) & {9, 10, 11, 12, 15, 19, 20, 23})       # the unmodified events must be accepted, or the rejections mean nothing
     ck.canary("one digit of a reported Hash(false) / cached Hash(true) changed -> rejected (original accepted)", 1 in got and 2 in got and intact)
     ck.canary("pair with different destinations declared 'equal' -> rejected (with and without forged equal hashes)",
               3 in got and 4 in got and cnotes.get(3) == "declared" and intact)
@@ -367,6 +375,8 @@ def run(ck):
     ck.canary("library's own encoding reported undecodable / differing in one bit from the source cell -> rejected", 13 in got and 14 in got and intact)
     ck.canary("record inside a Merkle proof: hash at the second cached decode / cached in_msg hash changed; Hash(true) after assignment "
               "changed -> rejected", 16 in got and 17 in got and 18 in got and intact)
+    ck.canary("SourceBoc asked a second time / normalised hash through a decoder with a library resolver changed -> rejected",
+              21 in got and 22 in got and intact)
     return ck.finish(rule=RULE, distinct=len(gdistinct | ddistinct))
 
 
